@@ -21,8 +21,9 @@ type result struct {
 	res [][]interface{}
 }
 
-func scenario(callers int, maxAborts int) {
+func scenario(callers int, maxAborts int, preempt int, withError bool) {
 	vf.Sched("RequestManager).Run,ExecuteSQLForTxnTh,c12.scenario")
+	vf.SchedPreempt(preempt)
 	db := samehada.NewSamehadaDB("vfc12", 200)
 	effects := map[string]int{}  // successful executions per statement
 	attempts := map[string]int{} // all executions per statement
@@ -30,11 +31,15 @@ func scenario(callers int, maxAborts int) {
 	otherErr := errors.New("some other error")
 	samehada.SetVFExecSQLHook(func(sdb *samehada.SamehadaDB, sql string) (error, [][]*types.Value) {
 		attempts[sql]++
-		outcomes := 2
+		// outcome of this attempt: success | aborted by concurrency control (bounded) | other error
+		menu := []int{0}
 		if aborts < maxAborts {
-			outcomes = 3
+			menu = append(menu, 2)
 		}
-		switch vf.Choose(outcomes) {
+		if withError {
+			menu = append(menu, 1)
+		}
+		switch menu[vf.Choose(len(menu))] {
 		case 0:
 			effects[sql]++
 			v := types.NewVarchar(sql)
@@ -68,7 +73,7 @@ func scenario(callers int, maxAborts int) {
 			vf.Assert(effects[names[i]] == 1, "a statement answered with success took effect exactly once")
 			vf.Cover("c12.success")
 		} else {
-			vf.Assert(r.err == otherErr, "an error reply is the statement's own error (an internal abort is retried, not reported)")
+			vf.Assert(withError && r.err == otherErr, "an error reply is the statement's own error (an internal abort is retried, not reported)")
 			vf.Assert(effects[names[i]] == 0, "a statement answered with an error took no effect")
 			vf.Cover("c12.error")
 		}
@@ -81,7 +86,9 @@ func scenario(callers int, maxAborts int) {
 	vf.Cover("c12.shutdown")
 }
 
-func VF_C12_One()       { scenario(1, 1) }
-func VF_C12_Two()       { scenario(2, 1) }
-func VF_C12_Two_A2()    { scenario(2, 2) }
-func VF_C12_Three()     { scenario(3, 1) }
+func VF_C12_One()    { scenario(1, 1, 1, true) }
+func VF_C12_One_P2() { scenario(1, 2, 2, true) }
+func VF_C12_Two()    { scenario(2, 1, 0, false) }
+func VF_C12_Two_E()  { scenario(2, 1, 0, true) }
+func VF_C12_Two_P1() { scenario(2, 1, 1, false) }
+func VF_C12_Three()  { scenario(3, 1, 0, false) }
